@@ -72,6 +72,7 @@ def shards(tier):
         out.append({'kind': 'extent', 'prog': i})
         out.append({'kind': 'rawput', 'prog': i})
         out.append({'kind': 'coords', 'prog': i})
+        out.append({'kind': 'rawto', 'prog': i})
     d2 = (1, 3, 8, 14) if tier == 'quick' else range(len(PROGRAMS))
     for i in d2:
         p = PROGRAMS[i]
@@ -180,6 +181,50 @@ def run_rect(fst, pi, o1, o2, text, res, first=None):
     judge(root, old, pre, o1, o2, text, cid, res, params, rep, exc)
     res.sample({'program': old, 'rect': [o1, o2], 'text': text, 'raised': repr(exc) if exc else None})
     return True
+
+
+def run_rawto(fst, pi, src, tier, res):
+    """Raw one-element puts with the `to=` option: everything from the start of one expression to the end of a later one (inside the
+    same statement, possibly in another container) is replaced by new code; judged like a rectangle edit against the full parse."""
+    from ..fstnav import node_at
+    lines = src.split('\n')
+    tree = ast.parse(src)
+
+    def off(ln, col):
+        return O.offset_of(lines, ln - 1, O.byte2char(lines[ln - 1], col))
+    maxspan = 16 if tier == 'quick' else 40
+    from .. import extents as X
+    S = X.Src(src)
+    for si, stmt in enumerate(tree.body):
+        exprs = [(p, n) for p, n in O.iter_nodes(stmt) if isinstance(n, ast.expr) and hasattr(n, 'lineno')
+                 and S.expand(*S.span(n)) == S.span(n)]  # nodes in grouping parentheses: whose the parentheses are is C06's question
+        for p1, n1 in exprs:
+            a = off(n1.lineno, n1.col_offset)
+            for p2, n2 in exprs:
+                b = off(n2.end_lineno, n2.end_col_offset)
+                if n2 is n1 or off(n2.lineno, n2.col_offset) < a or b <= off(n1.end_lineno, n1.end_col_offset) or b - a > maxspan:
+                    continue
+                for text in ('q', 'f(r)'):
+                    path1, path2 = (('body', si),) + tuple(p1), (('body', si),) + tuple(p2)
+                    cid = f'C10/p{pi}/rawto {O.path_str(path1)} .. {O.path_str(path2)} <-{text!r}'
+                    rep = {'prog': pi, 'rawto': [[list(x) for x in path1], [list(x) for x in path2], text]}
+                    root = fst.FST(src, 'exec')
+                    pre = O.dump_pos(root.a)
+                    res.evals += 1
+                    res.transitions += 1
+                    try:
+                        with deadline(10):
+                            node_at(root, path1).replace(text, raw=True, to=node_at(root, path2))
+                        exc = None
+                    except CaseTimeout:
+                        res.fail(cid, 'hang', '', {'prog': pi}, rep)
+                        continue
+                    except Exception as e:  # noqa: BLE001
+                        exc = e
+                    if exc is not None and isinstance(exc, (NotImplementedError,)) or (exc is not None and 'to' in str(exc) and isinstance(exc, (ValueError,)) and root.src == src):
+                        res.outcomes['rawto-not-supported-here'] += 1
+                        continue
+                    judge(root, src, pre, a, b, text, cid, res, {'prog': pi, 'rawto': True}, rep, exc)
 
 
 def coord_encodings(lines, ln, col, eln, ecol):
@@ -296,6 +341,8 @@ def run_shard(desc, tier, res):
                 run_rect(fst, pi, o1, o2, text, res)
     elif desc['kind'] == 'coords':
         run_coords(fst, pi, src, tier, res)
+    elif desc['kind'] == 'rawto':
+        run_rawto(fst, pi, src, tier, res)
     elif desc['kind'] == 'reparse':
         tree = ast.parse(src)
         for path, node in O.iter_nodes(tree):
@@ -391,6 +438,9 @@ def run_shard(desc, tier, res):
 
 def replay(rep, res):
     import fst
+    if rep.get('rawto'):
+        run_rawto(fst, rep['prog'], PROGRAMS[rep['prog']], 'quick', res)
+        return
     if rep.get('coords'):
         run_coords(fst, rep['prog'], PROGRAMS[rep['prog']], 'quick', res)
         return
